@@ -40,7 +40,7 @@ Fixpoint data_near (abs rel : Q) (a b : list num) : bool :=
 (** flags
       1 tie: result class differs            2 tie: error kind/position differs     4 tie: data differs
       8 prop: the Go parser panicked        16 prop: the Go parser did not return (watchdog)
-     32 info: outside the modelled range (decimal exponent beyond +-400): excluded
+     32 info: outside the modelled range (decimal exponent beyond +-400, or coordinates of magnitude >= 2^40): excluded
      64 tie: the model ran out of fuel     128 tie: ParseFloat length differs      256 tie: ParseFloat value differs
     512 prop: ParseSVGPath(p.String()) is not p      1024 prop: ToSVG does not denote p's geometry
    2048 prop: ToPDF operators do not trace p         4096 prop: ToPS operators do not trace p *)
@@ -52,7 +52,11 @@ Definition judge_parse (v : pvariant) (b : list Z) orc gclass gkind gpos god (ex
   match m with
   | PUnmodelled => 32
   | PFuel => 64
-  | POk rd => bit (negb (gclass =? 0)) 1
+  | POk rd =>
+      (* coordinates of 2^40 and more next to ordinary ones: binary64 absorbs the small terms of relative moves (points that differ
+         exactly come out equal or collinear and the builder merges them), which the exact model does not reproduce: excluded *)
+      if existsb (fun x => Qle_bool (inject_Z (2 ^ 40)) (Qabs x)) (data rd) then 32 else
+      bit (negb (gclass =? 0)) 1
               + bit ((gclass =? 0) && negb (if exact then data_near 0 0 (data rd) god else data_near ABS40 REL50 (data rd) god)) 4
   | PErr k p => bit (negb (gclass =? 1)) 1 + bit ((gclass =? 1) && negb (((if k =? 6 then 3 else k) =? gkind) && ((k =? 1) || (Z.of_nat p =? gpos)))) 2
   | PPanic => bit (negb (gclass =? 2)) 1
